@@ -495,8 +495,8 @@ pub fn gen(tier: &str, seed: u64, out: &mut Out) {
     //     assign(0), clear + resize, Vector::zeros), under every norm and reduction: the expectation is exactly 0.
     //     In floating point x * 0 leaves -0.0 at the negative entries: signed zeros are part of the data.
     for n in 1..=MAXLEN { for (which, ty) in ["f64", TYS[[0usize, 1, 3][n % 3]]].into_iter().enumerate() {
-        if !quick && which == 1 { for t2 in ["i64", "rat", "cx"] { if t2 != ty { zero_case(&mut rng, n, t2, &mut |c| push(out, c)); } } }
-        zero_case(&mut rng, n, ty, &mut |c| push(out, c));
+        if !quick && which == 1 { for t2 in ["i64", "rat", "cx"] { if t2 != ty { zero_case(&mut rng, n, t2, false, &mut |c| push(out, c)); } } }
+        zero_case(&mut rng, n, ty, quick && which == 1, &mut |c| push(out, c));
     } }
     // (h) special exact values, systematically for every length 1..64: entries +-1, a single non-zero entry, already sorted and
     //     reverse-sorted inputs with ties, all elements equal, duplicate maxima of opposite sign (incl. at index 0)
@@ -559,6 +559,30 @@ pub fn gen(tier: &str, seed: u64, out: &mut Out) {
         let mut c = json!({"ty": ty, "init": x, "ops": ops}); if cx { c["initi"] = json!(xi); }
         push(out, c);
     } } }
+    // (l) norm_p with exponents next to whole numbers (k -+ 1 ulp, 2 ulp, 1e-15 ... 1e-8 for k = 1..8, inside [1, 8]), the accumulated
+    //     values of p = 1.0; p += 0.1 and p += 0.25, and 1 + 1e-9, on vectors whose k-norm and (k-1)-norm are far apart:
+    //     the reference is evaluated with the same p (pow is smooth in p, the exponent must not be snapped or truncated)
+    {
+        let mut ps: Vec<f64> = vec![1.0 + 1e-9];
+        for k in 1..=8 { let kf = k as f64; ps.push(kf);
+            for d in [1e-15, 1e-13, 1e-12, 1e-10, 1e-8] { ps.push(kf - d); ps.push(kf + d); }
+            for u in [1i64, 2] { ps.push(ulps(kf, -u)); ps.push(ulps(kf, u)); } }
+        { let mut p = 1.0f64; while p <= 8.0 { ps.push(p); p += 0.1; } }
+        { let mut p = 1.0f64; while p <= 8.0 { ps.push(p); p += 0.25; } }
+        ps.retain(|p| *p >= 1.0 && *p <= 8.0);
+        let fixed: [&[f64]; 6] = [&[3.0, 4.0], &[1.0, 1.0, 1.0, 1.0], &[1e-3, 2.5, 40.0, 7.0], &[-3.0, 4.0, 0.0, -12.0], &[0.5, -0.25, 0.125], &[1.0, -1.0, 2.0, -2.0, 3.0, -3.0, 1e3]];
+        for (i, p) in ps.iter().enumerate() {
+            let mut vs: Vec<Vec<f64>> = if quick { vec![fixed[i % 6].to_vec()] } else { fixed.iter().map(|v| v.to_vec()).collect() };
+            for _ in 0..(if quick { 1 } else { 4 }) { let n = rng.gen_range(2..=8); vs.push((0..n).map(|_| f64_of(&jf64(&mut rng, -3, 3))).collect()); }
+            if quick && i % 3 == 0 { vs.push(fixed[0].to_vec()); }
+            for xs in vs {
+                let ys: Vec<f64> = xs.iter().map(|_| f64_of(&jf64(&mut rng, -3, 3))).collect();
+                let op = json!({"op": "fnorms", "kind": "pnear", "xs": xs.iter().map(|a| jf64_exact(*a)).collect::<Vec<Value>>(), "ys": ys.iter().map(|a| jf64_exact(*a)).collect::<Vec<Value>>(),
+                                "p": jf64_exact(*p), "k2": rng.gen_range(-20..=20)});
+                push(out, json!({"ty": "f64", "init": [], "ops": [op]}));
+            }
+        }
+    }
 }
 
 /// the observers run on a vector that must be all zeros
@@ -573,7 +597,8 @@ fn zero_obs(rng: &mut StdRng, ops: &mut Vec<Value>, n: usize, ty: &str, full: bo
     if f64ty || cx { ops.push(json!({"op": "norm_inf"})); }
     if full { let mut o = json!({"op": "find", "x": 0}); if cx { o["xi"] = json!(0); } ops.push(o); ops.push(json!({"op": "sort", "form": "by"})); ops.push(json!({"op": "sum_from", "a": 0})); ops.push(json!({"op": "neg"})); }
 }
-fn zero_case(rng: &mut StdRng, n: usize, ty: &str, push: &mut dyn FnMut(Value)) {
+/// lite: the routes through x - x, x * 0, Vector::zeros and -(0) only (quick tier, element types other than f64)
+fn zero_case(rng: &mut StdRng, n: usize, ty: &str, lite: bool, push: &mut dyn FnMut(Value)) {
     let cx = ty == "cx"; let f64ty = ty == "f64";
     let x = rand_vec_json(rng, n, -9, 9); let xi = rand_vec_json(rng, n, -9, 9);
     let withv = |name: &str, adopt: bool| -> Value { let mut o = json!({"op": name, "v": x.clone(), "form": "ref"}); if cx { o["vi"] = xi.clone(); } if adopt { o["adopt"] = json!(true); } o };
@@ -582,12 +607,14 @@ fn zero_case(rng: &mut StdRng, n: usize, ty: &str, push: &mut dyn FnMut(Value)) 
     ops.push(withv("sub", true)); zero_obs(rng, &mut ops, n, ty, true);                                            // x - x
     ops.push(withv("add", true)); ops.push(scal("mul_scalar", "own", true)); zero_obs(rng, &mut ops, n, ty, false);   // 0 + x = x, then x * 0
     if f64ty { ops.push(withv("add", true)); ops.push(scal("mul_scalar", "left", true)); zero_obs(rng, &mut ops, n, ty, false); }   // 0.0 * x
+    if !lite {
     ops.push(withv("add", true)); ops.push(scal("mul_assign", "own", false)); zero_obs(rng, &mut ops, n, ty, false);   // x *= 0
     ops.push(withv("add", true)); ops.push(withv("sub_assign", false)); zero_obs(rng, &mut ops, n, ty, false);        // x -= x
     ops.push(withv("add", true)); ops.push(scal("assign", "own", false)); zero_obs(rng, &mut ops, n, ty, false);       // assign(0)
     if !cx { ops.push(withv("add", true)); ops.push(json!({"op": "clear"})); ops.push(json!({"op": "resize", "n": n})); zero_obs(rng, &mut ops, n, ty, false); }   // clear, resize: Default
-    ops.push(json!({"op": "zeros", "n": n, "adopt": true})); zero_obs(rng, &mut ops, n, ty, false);                    // Vector::zeros(n)
     ops.push(json!({"op": "new", "n": n, "x": 0, "xi": 0, "adopt": true})); zero_obs(rng, &mut ops, n, ty, false);     // Vector::new(n, 0)
+    }
+    ops.push(json!({"op": "zeros", "n": n, "adopt": true})); zero_obs(rng, &mut ops, n, ty, false);                    // Vector::zeros(n)
     // -(0) = -0.0 in every entry; then one non-zero entry among the signed zeros
     ops.push(json!({"op": "neg", "adopt": true})); zero_obs(rng, &mut ops, n, ty, false);
     ops.push(json!({"op": "dot", "alias": true})); ops.push(json!({"op": "sum_from", "a": 0}));
